@@ -15,6 +15,11 @@
 //	resolver  the full production chain on a scripted authoritative universe:
 //	          concurrent clients whose resolutions share upstream lookups
 //	          (resolver.go)
+//	recycle   pooled per-connection stream state across connections: TCP/DoT
+//	          clients that pipeline and then disappear while their replies are
+//	          staged (RST, close, half-close, never reading) or with whole
+//	          queries unconsumed, each followed at once by other clients'
+//	          connections on the same small engine (recycle.go)
 //	asan      (thorough) the rounds phase in the -asan build
 package main
 
@@ -49,6 +54,8 @@ func main() {
 		phaseRounds(r, true)
 	case "resolver":
 		phaseResolver(r)
+	case "recycle":
+		phaseRecycle(r)
 	default:
 		parent(r)
 	}
@@ -68,6 +75,7 @@ func parent(r *vlib.Run) {
 		{"rounds", "rounds", self, nil},
 		{"portable", "portable", self, nil},
 		{"resolver", "resolver", self, nil},
+		{"recycle", "recycle", self, nil},
 	}
 	if !r.Quick() {
 		kids = append(kids, child{"asan", "rounds", vlib.BinPath("c10", "asan"), []string{"C10_ASAN=1"}})
@@ -152,6 +160,21 @@ func parent(r *vlib.Run) {
 	r.Require("portable_reader_udp_replies", 300)
 	r.Require("rounds_completed", int64(r.N(4, 20)))
 	r.Require("children_completed", int64(len(kids)))
+	// recycle phase: the situation must have been produced, not assumed
+	r.Require("recycle_rounds_completed", int64(r.N(1, 4)))
+	r.Require("tcp_streams_recycled", int64(r.N(150, 1500)))
+	r.Require("tcp_streams_recycled_tcp", int64(r.N(80, 800)))
+	r.Require("tcp_streams_recycled_dot", int64(r.N(30, 300)))
+	r.Require("tcp_conn_closed_with_staged_bytes", int64(r.N(25, 250)))
+	r.Require("tcp_conn_closed_with_staged_bytes_rst", int64(r.N(10, 100)))
+	r.Require("tcp_conn_closed_with_staged_bytes_tcp", int64(r.N(10, 100)))
+	r.Require("tcp_conn_closed_with_staged_bytes_dot", int64(r.N(4, 40)))
+	r.Require("tcp_staged_replies_delivered_at_connection_end", int64(r.N(8, 80)))
+	r.Require("tcp_conn_closed_with_unconsumed_queries", int64(r.N(6, 60)))
+	r.Require("recycle_neverread_reset_sessions", int64(r.N(4, 40)))
+	r.Require("recycle_successor_first_reply_verified", int64(r.N(200, 2000)))
+	r.Require("recycle_successor_first_reply_verified_tcp", int64(r.N(100, 1000)))
+	r.Require("recycle_successor_first_reply_verified_dot", int64(r.N(40, 400)))
 	r.Require("resolver_shared_lookups_observed", 5)
 	r.Require("resolver_replies_judged", 200)
 	r.Assume("the Go race detector (and, thorough tier, AddressSanitizer) are trusted")
